@@ -247,6 +247,90 @@ async def c12_outgoing(w):
     return {"reproduced": got != expect, "observed": {"service_data": got}, "expected": {"service_data": expect}}
 
 
+async def c09_mqtt_subscribe_window(w):
+    """Mqtt.notify_add suspends in mqtt.async_subscribe after creating notify[topic] = set().
+    mode 'cancel': the subscribing task is cancelled there (trigger stopped while starting);
+    mode 'concurrent': another trigger adds and removes the same topic meanwhile."""
+    import custom_components.pyscript.mqtt as pm
+    from custom_components.pyscript.mqtt import Mqtt
+    hass = await boot()
+    Mqtt.init(hass)
+    Mqtt.notify.clear()
+    Mqtt.notify_remove.clear()
+    subs = []
+
+    async def fake_subscribe(hass_, topic, handler, encoding="utf-8", qos=0):
+        await asyncio.sleep(0.05)
+        subs.append(topic)
+        return lambda: subs.remove(topic)
+
+    pm.mqtt = SimpleNamespace(async_subscribe=fake_subscribe)
+    q1, q2 = asyncio.Queue(), asyncio.Queue()
+    obs = {}
+    t = asyncio.get_running_loop().create_task(Mqtt.notify_add("a/b", q1))
+    await asyncio.sleep(0.01)
+    if w.get("mode") == "concurrent":
+        err = None
+        try:
+            await Mqtt.notify_add("a/b", q2)
+            Mqtt.notify_del("a/b", q2)
+        except Exception as e:  # noqa
+            err = repr(e)
+        await asyncio.gather(t, return_exceptions=True)
+        obs = {"error_in_other_trigger": err, "first_task": repr(t.exception()) if t.done() and not t.cancelled() else None}
+        rep = err is not None or (t.done() and not t.cancelled() and t.exception() is not None)
+        exp = "no exception: adding and removing another queue for the same topic is independent"
+    else:
+        t.cancel()
+        await asyncio.gather(t, return_exceptions=True)
+        obs = {"notify": {k: len(v) for k, v in Mqtt.notify.items()}, "notify_remove": list(Mqtt.notify_remove), "subscriptions": list(subs)}
+        # the table now claims the topic is set up although nothing is subscribed
+        await Mqtt.notify_add("a/b", q2)
+        obs["after_new_subscriber"] = {"subscriptions": list(subs), "notify_remove": list(Mqtt.notify_remove)}
+        rep = "a/b" in Mqtt.notify and "a/b" not in subs
+        exp = "a topic present in Mqtt.notify has exactly one live MQTT subscription"
+    await shutdown()
+    return {"reproduced": rep, "observed": obs, "expected": exp}
+
+
+class OrderedSet(set):
+    """A real `set` whose iteration order is fixed (CPython's order depends on hashes; any order is possible)."""
+
+    def __init__(self, items):
+        super().__init__(items)
+        self._order = list(items)
+
+    def __iter__(self):
+        return iter(self._order)
+
+
+async def c09_state_notify_del(w):
+    """State.notify_add(names, q) then State.notify_del(names, q) with the iteration order of the model."""
+    from custom_components.pyscript.state import State
+    await boot()
+    State.notify.clear()
+    names = []
+    seen = {}
+    for i, (e, n, ident) in enumerate(zip(w["entity_of_name"], w["nparts"], w["name_identity"])):
+        if ident in seen:
+            continue
+        parts = [f"d{e}", f"e{e}"] + [f"x{i}_{k}" for k in range(max(0, n - 2))]
+        if n == 1:
+            parts = [f"single{i}"]
+        seen[ident] = ".".join(parts[:max(n, 1)])
+        names.append(seen[ident])
+    order = [names[i] for i in w["del_iteration_order"]] if len(w["del_iteration_order"]) == len(names) else names
+    q = asyncio.Queue()
+    await State.notify_add(OrderedSet(names), q)
+    before = sorted(k for k, v in State.notify.items() if q in v)
+    State.notify_del(OrderedSet(order), q)
+    after = sorted(k for k, v in State.notify.items() if q in v)
+    await shutdown()
+    return {"reproduced": bool(after), "observed": {"names_in_deletion_order": order, "subscribed_after_add": before,
+                                                     "still_subscribed_after_del": after},
+            "expected": "no entity keeps the queue after notify_del with the same names"}
+
+
 SCENARIOS = {k: v for k, v in list(globals().items()) if asyncio.iscoroutinefunction(v) and k[0] == "c"}
 
 if __name__ == "__main__":
